@@ -704,6 +704,13 @@ pub fn issue_op(c: &mut Commands, op: Op, cmd: CmdId, top: bool, rm: Option<&mut
             let e = with_ctx(|x| x.actors[a as usize].entity);
             c.queue(move |w: &mut World| { if let Ok(mut em) = w.get_entity_mut(e) { em.clear(); } });
         }
+        Op::TagSys(a) =>
+        {
+            record(issued);
+            c.queue(marker(cmd));
+            let e = with_ctx(|x| x.actors[a as usize].entity);
+            c.queue(move |w: &mut World| { if let Ok(mut em) = w.get_entity_mut(e) { em.insert(HarnessTag); } });
+        }
         Op::Register(a, b, mode) =>
         {
             let (e, bundle, tok_id) = with_ctx(|x| {
@@ -843,6 +850,9 @@ pub fn issue_op(c: &mut Commands, op: Op, cmd: CmdId, top: bool, rm: Option<&mut
         }
     }
 }
+
+#[derive(Component)]
+pub struct HarnessTag;
 
 /// The entity world reactor of the lazy-program universe: its system is an ordinary harness actor.
 pub struct HarnessEwr(pub ActorId, pub Variant);
